@@ -148,6 +148,7 @@ func kitWaitCh(ch <-chan struct{}) bool {
 type kitAccept struct {
 	Family     string // "v4" | "v6"
 	Dest       netip.Addr
+	Remote     netip.Addr
 	RemotePort int
 	Conn       net.Conn
 }
@@ -193,7 +194,8 @@ func (k *kitSink) loop(l net.Listener, fam string, out chan kitAccept) {
 		la := c.LocalAddr().(*net.TCPAddr)
 		ra := c.RemoteAddr().(*net.TCPAddr)
 		d, _ := netip.AddrFromSlice(la.IP)
-		out <- kitAccept{Family: fam, Dest: d.Unmap(), RemotePort: ra.Port, Conn: c}
+		rm, _ := netip.AddrFromSlice(ra.IP)
+		out <- kitAccept{Family: fam, Dest: d.Unmap(), Remote: rm.Unmap(), RemotePort: ra.Port, Conn: c}
 	}
 }
 
@@ -212,7 +214,15 @@ func (k *kitSink) barrier() (accs []kitAccept, ok bool) {
 		if err != nil {
 			return accs, false
 		}
-		mport := mc.LocalAddr().(*net.TCPAddr).Port
+		// The marker is recognised by its full 4-tuple, not by its source port alone: the kernel may
+		// give a connection of the code under test to 127.x.y.z the same ephemeral port number as
+		// the marker to 127.0.0.1 (different destination, so both can exist at once).
+		mla := mc.LocalAddr().(*net.TCPAddr)
+		mra := mc.RemoteAddr().(*net.TCPAddr)
+		mport := mla.Port
+		mlocal, _ := netip.AddrFromSlice(mla.IP)
+		mdest, _ := netip.AddrFromSlice(mra.IP)
+		mlocal, mdest = mlocal.Unmap(), mdest.Unmap()
 		t := time.NewTimer(kitWatchdog)
 		found := false
 		for !found {
@@ -223,7 +233,7 @@ func (k *kitSink) barrier() (accs []kitAccept, ok bool) {
 					mc.Close()
 					return accs, false
 				}
-				if a.RemotePort == mport {
+				if a.RemotePort == mport && a.Remote == mlocal && a.Dest == mdest {
 					a.Conn.Close()
 					found = true
 					break
